@@ -135,6 +135,16 @@ type target struct {
 	StructGoName map[string]string
 	// DropCalls: methods of the context receiver whose call statements are dropped (logging helpers)
 	DropCalls []string
+	// Imports: generated files this one builds on; ExternStructs: records declared there (parsed here for their fields, not emitted
+	// again); ExternFuncs: functions translated there, with their result types and whether their receiver is an option
+	Imports       []string
+	ExternStructs []string
+	ExternFuncs   map[string]externFn
+}
+
+type externFn struct {
+	Rets    []ty
+	RecvOpt bool
 }
 
 var curTypeAlias = map[string]string{}
@@ -227,6 +237,25 @@ var targets = []target{
 		Extra: []extraSrc{{File: "agglayer/types/types.go", Alias: "agglayertypes",
 			Funcs: []string{"CertificateStatus.IsOpen", "CertificateStatus.IsClosed", "CertificateStatus.IsSettled", "CertificateStatus.IsInError"}}},
 		Funcs: []string{"initialStatus.getLatestAggLayerCert", "initialStatus.checkAgglayerConsistenceCerts", "initialStatus.process"}},
+	{File: "aggsender/flows/flow_base.go", Out: "GenLimitCert.v",
+		Module: "aggsender/flows/flow_base.go (limitCertSize), on top of Gen/GenBuildParams.v",
+		IntLit: true, Ctx: "baseFlow", Imports: []string{"Gen.GenBuildParams"},
+		Structs: []string{"Bridge", "Claim", "CertificateHeader", "CertificateBuildParams", "BaseFlowConfig"},
+		ExternStructs: []string{"Bridge", "Claim", "CertificateHeader", "CertificateBuildParams"},
+		StructsFrom: map[string]string{"Bridge": "bridgesync/processor.go", "Claim": "bridgesync/processor.go", "CertificateHeader": "aggsender/types/types.go",
+			"CertificateBuildParams": "aggsender/types/certificate_build_params.go"},
+		StructFields: map[string][]string{
+			"Bridge": {"BlockNum", "Metadata", "DepositCount"}, "Claim": {"BlockNum", "Metadata"}, "CertificateHeader": {"Height"},
+			"CertificateBuildParams": {"FromBlock", "ToBlock", "Bridges", "Claims", "RetryCount", "LastSentCertificate", "CertificateType"},
+			"BaseFlowConfig":         {"MaxCertSize"}},
+		IntTypes:  []string{"CertificateType"},
+		TypeAlias: map[string]string{"types.CertificateBuildParams": "CertificateBuildParams"},
+		ExternFuncs: map[string]externFn{
+			"CertificateBuildParams.EstimatedSize":  {Rets: []ty{{k: kInt}}, RecvOpt: true},
+			"CertificateBuildParams.NumberOfBlocks": {Rets: []ty{{k: kZ}}, RecvOpt: true},
+			"CertificateBuildParams.Range": {Rets: []ty{{k: kOpt, sub: []ty{{k: kStruct, name: "CertificateBuildParams"}}}, {k: kErr}}},
+		},
+		Funcs: []string{"baseFlow.limitCertSize"}},
 	{File: "aggsender/types/block_range.go", Out: "GenBlockRange.v", Module: "aggsender/types/block_range.go",
 		Structs: []string{"BlockRange"},
 		Funcs:   []string{"getBlockMinusOne", "BlockRange.CountBlocks", "BlockRange.IsEmpty", "BlockRange.Gap"}},
@@ -249,9 +278,11 @@ type tr struct {
 	ctxOrder []string
 	errs     []string
 	funcFile map[string]*ast.File // translated function key -> the file it is declared in (Extra sources)
+	externs  map[string]bool
 	fresh    int
 	panics   []string // declarations of the panic variables used, in order
 	hashEq   bool     // the output compares hashes: Section variable hash_eqb
+	needFuel bool     // the function being translated contains `for { }`: it takes a fuel parameter
 	cvals    map[string]constant.Value
 	recvOpt  map[string]bool // translated function name -> its receiver is an option
 }
@@ -335,11 +366,13 @@ type env struct {
 	deref map[string]string
 	// the Section variable that stands for "a nil pointer is dereferenced here" in the function being translated
 	panicVar string
+	// inside `for { }`: the call that starts the next iteration with the current values of the loop variables
+	contCall string
 }
 
 func (e *env) clone() *env {
 	n := &env{vars: map[string]ty{}, recv: e.recv, rctx: e.rctx, flat: e.flat, rets: e.rets, named: e.named,
-		loopTup: e.loopTup, inLoop: e.inLoop, loopRet: e.loopRet, panicVar: e.panicVar}
+		loopTup: e.loopTup, inLoop: e.inLoop, loopRet: e.loopRet, panicVar: e.panicVar, contCall: e.contCall}
 	for k, v := range e.vars {
 		n.vars[k] = v
 	}
@@ -850,7 +883,7 @@ func (t *tr) call(v *ast.CallExpr, en *env) (string, ty) {
 				t.fail(v, "method call on a non-record")
 				return "?", ty{k: kUnknown}
 			}
-			if _, ok := t.funcs[xt.name+"."+f.Sel.Name]; !ok {
+			if _, ok := t.funcs[xt.name+"."+f.Sel.Name]; !ok && !t.externs[xt.name+"."+f.Sel.Name] {
 				t.fail(v, "call of method %s.%s (not a translated function)", xt.name, f.Sel.Name)
 			}
 			fname = xt.name + "_" + f.Sel.Name
@@ -1375,6 +1408,9 @@ func (t *tr) block(list []ast.Stmt, en *env, tail string, ind string) string {
 			t.fail(nil, "control reaches the end of a function body without return")
 			return "?"
 		}
+		if tail == "\x00CONT" { // end of the body of `for { }`: next iteration, with the loop variables as they are now
+			return en.contCall
+		}
 		return tail
 	}
 	s, rest := list[0], list[1:]
@@ -1426,6 +1462,9 @@ func (t *tr) block(list []ast.Stmt, en *env, tail string, ind string) string {
 					vt = vt.sub[0]
 				}
 				en.vars[n.Name] = vt
+				if vt.k == kErr || vt.k == kInt || vt.k == kZ || vt.k == kBool { // scalars start at their zero value
+					return "let " + n.Name + " := " + zero(vt) + " in\n" + ind + t.block(append([]ast.Stmt{&ast.DeclStmt{Decl: &ast.GenDecl{Tok: token.VAR, Specs: restSpecs(gd.Specs, sp, n.Name)}}}, rest...), en, tail, ind)
+				}
 			}
 		}
 		return t.block(rest, en, tail, ind)
@@ -1953,6 +1992,36 @@ func (t *tr) loadIntConsts(f *ast.File, alias string) {
 	}
 }
 
+// restSpecs: the var specs that remain to be declared after name `done` of spec `cur` (one name per spec in the targets)
+func restSpecs(all []ast.Spec, cur ast.Spec, done string) []ast.Spec {
+	var out []ast.Spec
+	seen := false
+	for _, sp := range all {
+		if sp == cur {
+			seen = true
+			vs := sp.(*ast.ValueSpec)
+			var names []*ast.Ident
+			after := false
+			for _, n := range vs.Names {
+				if after {
+					names = append(names, n)
+				}
+				if n.Name == done {
+					after = true
+				}
+			}
+			if len(names) > 0 {
+				out = append(out, &ast.ValueSpec{Names: names, Type: vs.Type})
+			}
+			continue
+		}
+		if seen {
+			out = append(out, sp)
+		}
+	}
+	return out
+}
+
 // fixElse wraps every else-if of a synthetic chain into a block
 func fixElse(is *ast.IfStmt) {
 	if eb, ok := is.Else.(*ast.BlockStmt); ok && len(eb.List) == 1 {
@@ -1993,7 +2062,44 @@ func stripConv(e ast.Expr) ast.Expr {
 // forLoop translates `for i := T(lo); i < hi; i++ { body }` and `for i := T(hi); i >= 0; i-- { body }` (lo, hi constants) into a fold
 // over the index values whose state is the tuple of the variables the body assigns and that exist outside the loop; a loop whose
 // body returns carries, in addition, the returned value (None while running): later iterations are skipped once it is set.
+// foreverLoop translates `for { body }` (every path of the body returns or starts the next iteration) as a local fixpoint on
+// explicit fuel: the function gets a parameter `fuel__ : nat`, and what it returns when the fuel runs out is a parameter too
+// (Section variable nofuel_f of the result type). A theorem for enough fuel and every value of that parameter is a theorem about
+// the terminating runs.
+func (t *tr) foreverLoop(v *ast.ForStmt, en *env, ind string) string {
+	acc := map[string]bool{}
+	assigned(v.Body.List, acc)
+	var names []string
+	for n := range acc {
+		if _, ok := en.vars[n]; ok {
+			names = append(names, n)
+		}
+	}
+	sort.Strings(names)
+	rt := ty{k: kTuple, sub: en.rets}
+	if len(en.rets) == 1 {
+		rt = en.rets[0]
+	}
+	nofuel := "nofuel_" + strings.TrimPrefix(en.panicVar, "panic_")
+	decl := "Variable " + nofuel + " : " + rt.coq() + "."
+	t.panics = append(t.panics, decl)
+	t.needFuel = true
+	var params, args []string
+	for _, n := range names {
+		params = append(params, fmt.Sprintf("(%s : %s)", n, en.vars[n].coq()))
+		args = append(args, n)
+	}
+	ben := en.clone()
+	ben.contCall = "(loop__ fuel__ " + strings.Join(args, " ") + ")"
+	body := t.block(v.Body.List, ben, "\x00CONT", ind+"      ")
+	return "(fix loop__ (fuel__ : nat) " + strings.Join(params, " ") + " {struct fuel__} : " + rt.coq() + " :=\n" + ind + "    match fuel__ with\n" + ind +
+		"    | O => " + nofuel + "\n" + ind + "    | S fuel__ =>\n" + ind + "      " + body + "\n" + ind + "    end) fuel__ " + strings.Join(args, " ")
+}
+
 func (t *tr) forLoop(v *ast.ForStmt, rest []ast.Stmt, en *env, tail string, ind string) string {
+	if v.Init == nil && v.Cond == nil && v.Post == nil {
+		return t.foreverLoop(v, en, ind)
+	}
 	init, ok1 := v.Init.(*ast.AssignStmt)
 	cond, ok2 := v.Cond.(*ast.BinaryExpr)
 	post, ok3 := v.Post.(*ast.IncDecStmt)
@@ -2070,7 +2176,21 @@ var flatFields = map[string]map[string]ty{
 func (t *tr) run() string {
 	var o strings.Builder
 	o.WriteString("(* GENERATED by /verif/tools/go2coq from " + t.tg.Module + " on every check run. Do not edit. *)\n")
-	o.WriteString("From Coq Require Import ZArith NArith Bool List.\nFrom Verif Require Import Base.GoNum.\nImport ListNotations.\nOpen Scope N_scope.\n\n")
+	o.WriteString("From Coq Require Import ZArith NArith Bool List.\nFrom Verif Require Import Base.GoNum")
+	for _, im := range t.tg.Imports {
+		o.WriteString(" " + im)
+	}
+	o.WriteString(".\nImport ListNotations.\nOpen Scope N_scope.\n\n")
+	for key, ef := range t.tg.ExternFuncs { // functions of an imported generated file
+		name := strings.Replace(key, ".", "_", 1)
+		rt := ty{k: kTuple, sub: ef.Rets}
+		if len(ef.Rets) == 1 {
+			rt = ef.Rets[0]
+		}
+		t.rets[name] = rt
+		t.recvOpt[name] = ef.RecvOpt
+		t.externs[key] = true
+	}
 	if t.tg.Hash {
 		o.WriteString("Section Hash.\n(* common.Hash as an abstract type; hash2 a b = Keccak-256 of a ++ b (newTreeNode / crypto.Keccak256Hash); hash0 = the zero value *)\n")
 		o.WriteString("Variable hash : Type.\nVariable hash2 : hash -> hash -> hash.\nVariable hash0 : hash.\n(*HASHEQ*)\n")
@@ -2240,6 +2360,15 @@ func (t *tr) run() string {
 				sd.fields = append(sd.fields, field{n.Name, ft})
 			}
 		}
+		isExtern := false
+		for _, e := range t.tg.ExternStructs {
+			if e == name {
+				isExtern = true
+			}
+		}
+		if isExtern {
+			continue
+		}
 		var fs []string
 		for _, f := range sd.fields {
 			fs = append(fs, fmt.Sprintf("%s_%s : %s", name, f.name, f.t.coq()))
@@ -2361,7 +2490,11 @@ func (t *tr) run() string {
 			rt = rts[0]
 		}
 		name := t.funcName(recvType, fd.Name.Name)
+		t.needFuel = false
 		body := prologue + t.block(fd.Body.List, en, "", "  ")
+		if t.needFuel {
+			params = append([]string{"(fuel__ : nat)"}, params...)
+		}
 		t.rets[name] = rt
 		retAnn := ""
 		if !strings.Contains(rt.coq(), "_") {
@@ -2465,7 +2598,7 @@ func main() {
 				code string
 				t    ty
 			}{}, rets: map[string]ty{}, ctxVars: map[string]ty{}, funcFile: map[string]*ast.File{}}
-		t.cvals, t.recvOpt = map[string]constant.Value{}, map[string]bool{}
+		t.cvals, t.recvOpt, t.externs = map[string]constant.Value{}, map[string]bool{}, map[string]bool{}
 		curTypeAlias = map[string]string{}
 		for k, v := range tg.TypeAlias {
 			curTypeAlias[k] = v
